@@ -1,17 +1,19 @@
 ---------------------------- MODULE MCRegister ----------------------------
 (***************************************************************************)
-(* Bounded model of C06: three honest replicas and hand-made replicas,      *)
+(* Bounded model of C06: three (or four) honest replicas plus hand-made    *)
+(* replicas presented by an adversary,                                     *)
 (* a pool of operations covering every class named in the statement,       *)
 (* every permission setting, entry-count limit scaled to 3.                *)
 (*                                                                         *)
 (* Keys: 1 owner, 2 writer, 3 stranger.  Addresses: 1 the register, 2      *)
 (* another register of the same owner.                                     *)
 (*                                                                         *)
-(* MaxDepth = 0: TLC explores the whole state space (every delivery order, *)
-(* duplication, merge order) and checks the clauses in every state / on    *)
-(* every step.  MaxDepth > 0 with -simulate: TLC writes behaviours of the  *)
-(* model (call sequences with the model's results) as replay scenarios to  *)
-(* IOEnv.SCN.                                                              *)
+(* MaxDepth = 0 (MCSpec): TLC explores every state reachable in fewer    *)
+(* than MaxLevel calls (every delivery order, duplication, merge order,    *)
+(* hand-made replica) and checks the clauses in every state / on every     *)
+(* step.  MaxDepth > 0 with -simulate (Spec): TLC writes behaviours of     *)
+(* the model (call sequences with the model's results) as replay           *)
+(* scenarios to IOEnv.SCN.                                                 *)
 (***************************************************************************)
 EXTENDS Register, TLC, Json, CSV, IOUtils
 
@@ -53,16 +55,22 @@ MCSpec == Init /\ [][MCNext]_vars
 Cr(cs, sig) == [cs |-> cs, sig |-> sig]
 CraftsQuick == {Cr({1, 3}, TRUE), Cr({4}, TRUE), Cr({5}, TRUE), Cr({6}, TRUE), Cr({7}, TRUE),
                 Cr({1, 2, 3}, TRUE), Cr({1}, FALSE)}
-CraftsThorough == {Cr(cs, TRUE) : cs \in {x \in SUBSET (1..PoolSize) : Cardinality(x) \in 1..2}}
-                  \cup {Cr({1, 2, 3}, TRUE), Cr({1, 2, 3, 8}, TRUE), Cr({1}, FALSE), Cr({}, FALSE)}
+CraftsThorough == {Cr({o}, TRUE) : o \in 1..PoolSize}
+                  \cup {Cr({1, 3}, TRUE), Cr({2, 3}, TRUE), Cr({3, 8}, TRUE), Cr({4, 5}, TRUE), Cr({1, 7}, TRUE),
+                        Cr({1, 2, 3}, TRUE), Cr({1, 2, 3, 8}, TRUE), Cr({1}, FALSE), Cr({}, FALSE)}
 
 \* ---- known findings (see known_findings / lib/areas/register.py): the clause is checked modulo
 \* exactly these patterns, so that any other way of falsifying it is still reported by TLC.
 \* KF limit: a replica holding >= Limit entries (reached by add_op: exactly Limit; by merging: more)
 \*           is refused by verify with TooManyEntries.
-ClosureModKnown == \A r \in Replicas :
-    \A res \in VerifyRes(Pool, base[r], ops[r], Cnt(r), Limit) :
-        C06_Closure(res) \/ (res = "TooManyEntries" /\ Cnt(r) >= Limit)
+ClosureModKnown ==
+    /\ \A r \in Replicas :
+          \A res \in VerifyRes(Pool, base[r], ops[r], Cnt(r), Limit) :
+              C06_Closure(res) \/ (res = "TooManyEntries" /\ Cnt(r) >= Limit)
+    /\ \A r, s \in Replicas : (r # s /\ SameBase(base[r], base[s])) =>
+          \A res \in VMergeRes(Pool, base[r], base[s], ops[s], Cnt(s), Limit) :
+              \/ C06_ClosureMerge(res, Cardinality(ops[r] \cup ops[s]) <= Limit)
+              \/ (res = "TooManyEntries" /\ Cnt(s) >= Limit)
 \* KF address: an operation whose only defect is that it was made for another register is let in.
 OnlyAddress(b, o) == Reasons(Pool, b, o) = {"address"}
 AuthorisedStepModKnown ==
